@@ -889,6 +889,11 @@ func runC11Opt(t *testing.T, id int, gen string, c, s c11Cfg, resume bool, mask 
 	res.Client.Alert, res.Server.Alert = -1, -1
 	c11SentChain(c, true, &res.Client)
 	c11SentChain(s, false, &res.Server)
+	if c.SNI == 1 && s.Key > 0 && s.Key2 > 0 {
+		// the chain the client's server name selects
+		alt := c11GetCreds().Alt[s.Key2].Certificate
+		res.Server.Sent, res.Server.SentN = c11ChainHash(alt), len(alt)
+	}
 	var cs, ss *c11Store
 	if c.Store {
 		cs = newC11Store()
@@ -1233,6 +1238,16 @@ func c11GenPair(r *vRand, breakDim string) (c, s c11Cfg, resume bool) {
 		if r.chance(10) {
 			s.Store = false
 		}
+	}
+	// a second server certificate for another name, and which name the client asks for
+	if s.Key > 0 && r.chance(14) {
+		s.Key2 = 1 + r.intn(3)
+		if common13 && s.Key2 == 3 && r.chance(50) {
+			s.Key2 = 1 + r.intn(2)
+		}
+		c.SNI = r.intn(2)
+	} else if s.Key > 0 && r.chance(2) {
+		c.SNI = 1 // a name the server has no certificate for
 	}
 	m := c11MTUs[r.intn(len(c11MTUs))]
 	c.MTU, s.MTU = m, m
